@@ -594,6 +594,8 @@ class Program:
                 os.replace(tmp, pk)
             except Exception:
                 pass
+        self._requested = {}
+        self.aliases = self._resolve_renamed_anchors(raw)
         for unit, j in raw.items():
             self.crates[unit] = j
             for f in j["fns"]:
@@ -604,8 +606,98 @@ class Program:
                 self.hir.setdefault(h["path"], h)
             self.items[unit] = j.get("items") or {}
 
+    # ---- anchors: functions that rules look up by path.  tables/anchors.json freezes the kind and the return / argument types of
+    # every anchor found on the reference tree.  If an anchor is missing from the program (a private function was renamed) and
+    # exactly one function with the same parent path, kind and signature exists that is not itself an anchor, the program is
+    # analysed with that function under the anchor's name (every occurrence of the new path in MIR, HIR and items is rewritten
+    # while loading).  Anything else stays "not found" and fails closed.
     def fn(self, path):
-        return self.fns.get(path)
+        f = self.fns.get(path)
+        if os.environ.get("JRS_RECORD_ANCHORS") and f is not None and f.kind != "Closure":
+            self._requested[path] = f
+        return f
+
+    @staticmethod
+    def _parent(path):
+        depth = 0
+        cut = None
+        i = 0
+        while i < len(path) - 1:
+            ch = path[i]
+            if ch == "<":
+                depth += 1
+            elif ch == ">" and (i == 0 or path[i - 1] != "-"):
+                depth -= 1
+            elif ch == ":" and path[i + 1] == ":" and depth == 0:
+                cut = i
+                i += 1
+            i += 1
+        return path[:cut] if cut is not None else ""
+
+    @staticmethod
+    def _sig_raw(f):
+        return [f["kind"]] + [str(x) for x in f["locals"][:1 + f["arg_count"]]]
+
+    def _resolve_renamed_anchors(self, raw):
+        p = os.path.join(os.path.dirname(os.path.dirname(os.path.dirname(os.path.abspath(__file__)))), "tables", "anchors.json")
+        try:
+            with open(p) as fh:
+                anchors = json.load(fh)["anchors"]
+        except Exception:
+            return {}
+        have = {}
+        for unit, j in raw.items():
+            for f in j["fns"]:
+                have.setdefault(f["path"], f)
+        missing = [a for a in anchors if a not in have]
+        if not missing:
+            return {}
+        ren = {}
+        for a in missing:
+            par = self._parent(a)
+            c = [q for q, f in have.items() if q not in anchors and f["kind"] != "Closure" and self._parent(q) == par
+                 and self._sig_raw(f) == anchors[a]["sig"]]
+            if len(c) == 1 and c[0] not in ren.values():
+                ren[a] = c[0]
+        if not ren:
+            return {}
+        back = {new: old for old, new in ren.items()}
+
+        def fix(x):
+            if isinstance(x, str):
+                if x in back:
+                    return back[x]
+                for new, old in back.items():
+                    if x.startswith(new + "::"):
+                        return old + x[len(new):]
+                return x
+            if isinstance(x, list):
+                for i, y in enumerate(x):
+                    if isinstance(y, (str, list, dict)):
+                        x[i] = fix(y)
+                return x
+            if isinstance(x, dict):
+                for k, y in x.items():
+                    if isinstance(y, (str, list, dict)):
+                        x[k] = fix(y)
+                return x
+            return x
+
+        for unit, j in raw.items():
+            fix(j)
+        for old, new in ren.items():
+            print("[anchors] %s is analysed under its reference name %s (same parent, kind and signature)" % (new, old), file=sys.stderr)
+        return ren
+
+    def dump_anchors(self, out):
+        cur = {}
+        for path, f in self._requested.items():
+            if f.path == path and path not in self.aliases:
+                cur[path] = {"sig": [f.kind] + [str(x) for x in f.locals[:1 + f.arg_count]]}
+        with open(out, "w") as fh:
+            json.dump({"comment": "functions the rules look up by path, with kind + return/argument types on the reference tree "
+                                  "(see Program._resolve_renamed_anchors); regenerate with JRS_RECORD_ANCHORS=1 python3 checker/verif.py check ALL",
+                       "anchors": dict(sorted(cur.items()))}, fh, indent=1)
 
     def reaches_call(self, path, pred, depth=2, _seen=None):
         """does the workspace function `path` call (directly or through workspace functions, to `depth`) a callee for which pred holds"""
@@ -647,6 +739,11 @@ class Program:
     def statics(self):
         for unit, it in self.items.items():
             for a in it.get("statics", []):
+                yield unit, a
+
+    def consts(self):
+        for unit, it in self.items.items():
+            for a in it.get("consts", []):
                 yield unit, a
 
     def closures_of(self, path):
